@@ -81,6 +81,7 @@ class Threader:
         self.n_try = 0
         self.n_thread = 0
         self.n_split = 0
+        self.n_sroa = 0
 
     def variant_index(self, adt, name):
         if (adt, name) in VARIANT_INDEX:
@@ -562,6 +563,108 @@ class Threader:
             self._mark_dead(hm)
         return did
 
+    # ------------------------------------------------------------------ pass 4: scalar replacement of local tuples
+    @staticmethod
+    def _places_in(j, out):
+        if isinstance(j, dict):
+            if "l" in j and "p" in j and isinstance(j["l"], int) and isinstance(j["p"], list):
+                out.append(j)
+                for e in j["p"]:
+                    Threader._places_in(e, out)
+                return
+            for v in j.values():
+                Threader._places_in(v, out)
+        elif isinstance(j, list):
+            for v in j:
+                Threader._places_in(v, out)
+
+    def sroa(self, it):
+        """an unnamed local tuple / struct that is only ever built by an aggregate and only ever used field by field
+        (`let (a, b, c) = match d { true => (&mut x, ..), false => (..) };`) is replaced by one local per field.
+        Points-to sets, descriptions and slices then see the components separately."""
+        hm = it["mir"]
+        blocks = [b for b in hm["blocks"] if not b.get("dead")]
+        whole_def = {}
+        bad = set()
+
+        def use(pl):
+            if not pl["p"]:
+                bad.add(pl["l"])
+            else:
+                e = pl["p"][0]
+                if not (isinstance(e, dict) and "f" in e and isinstance(e.get("i"), int)):
+                    bad.add(pl["l"])
+
+        for b in blocks:
+            for st in b["stmts"]:
+                if st["k"] != "assign":
+                    acc = []
+                    self._places_in(st, acc)
+                    for pl in acc:
+                        bad.add(pl["l"])
+                    continue
+                lhs, rv = st["lhs"], st["rv"]
+                if not lhs["p"]:
+                    if rv["k"] == "aggr" and rv.get("ak") in ("tuple", "adt") and not rv.get("is_enum") and rv.get("ops"):
+                        whole_def.setdefault(lhs["l"], []).append((b, st))
+                    else:
+                        bad.add(lhs["l"])
+                else:
+                    use(lhs)
+                    acc = []
+                    self._places_in(lhs["p"], acc)
+                    for pl in acc:
+                        use(pl)
+                acc = []
+                self._places_in(rv, acc)
+                for pl in acc:
+                    use(pl)
+            acc = []
+            self._places_in(b["term"], acc)
+            for pl in acc:
+                use(pl)
+        for d in hm.get("debug") or []:
+            acc = []
+            self._places_in(d, acc)
+            for pl in acc:
+                bad.add(pl["l"])
+        n_done = 0
+        for l, ds in sorted(whole_def.items()):
+            if l in bad or l == 0 or l <= hm["arg_count"] or hm["locals"][l].get("name"):
+                continue
+            n = len(ds[0][1]["rv"]["ops"])
+            if any(len(st["rv"]["ops"]) != n for (_, st) in ds):
+                continue
+            new = []
+            for i in range(n):
+                o = ds[0][1]["rv"]["ops"][i]
+                ty = (o.get("place") or {}).get("ty") or (o.get("c") or {}).get("ty") or "?"
+                nl = self.new_local(hm, ty)
+                hm["locals"][nl]["field_of"] = [l, i]
+                new.append(nl)
+            # rewrite the uses
+            for b in blocks:
+                acc = []
+                self._places_in(b["stmts"], acc)
+                self._places_in(b["term"], acc)
+                for pl in acc:
+                    if pl["l"] == l and pl["p"]:
+                        i = pl["p"][0]["i"]
+                        if i < n:
+                            pl["l"] = new[i]
+                            pl["p"] = pl["p"][1:]
+            # and the definitions
+            for (b, st) in ds:
+                k = b["stmts"].index(st)
+                repl = []
+                for i, o in enumerate(st["rv"]["ops"]):
+                    ty = hm["locals"][new[i]]["ty"]
+                    repl.append({"k": "assign", "lhs": {"l": new[i], "p": [], "ty": ty}, "rv": {"k": "use", "ops": [o], "ty": ty}, "span": st.get("span"), "inlined_at": st.get("inlined_at"), "sroa": l})
+                b["stmts"][k:k + 1] = repl
+            n_done += 1
+        self.n_sroa += n_done
+        return n_done
+
     def _mark_dead(self, hm):
         blocks = hm["blocks"]
         seen = set()
@@ -621,7 +724,10 @@ class Threader:
             self.thread_body(it)
             if not os.environ.get("VERIF_NO_SPLIT"):
                 self.split_selected_refs(it)
+            if not os.environ.get("VERIF_NO_SROA"):
+                self.sroa(it)
         self.facts["try_desugared"] = self.n_try
         self.facts["jumps_threaded"] = self.n_thread
         self.facts["selected_refs_split"] = self.n_split
+        self.facts["tuples_replaced"] = self.n_sroa
         return self.facts
